@@ -128,6 +128,12 @@ func (gc *GarbageCollector) GarbageCollectWatchesNow(ctx context.Context) error 
 
 	stop := make([]engine.WatchID, 0)
 	for _, wid := range running {
+		// Only composed resource watches are garbage collected. The watches
+		// on the XR itself and on its composition revisions are never in
+		// the used set, and must keep running.
+		if wid.Type != engine.WatchTypeComposedResource {
+			continue
+		}
 		if !used[wid] {
 			stop = append(stop, wid)
 		}
